@@ -69,6 +69,8 @@ class Runs(Part):
         # 1e-10, so different designs may "coincide" -- the bookkeeping must not depend on the scale
         box = srng.choice([[-2.0, 3.0], [-2.0, 3.0], [0.0, 4e-9], [1e6, 1e6 + 5.0]]) if alg_name in ("nsga2", "epsmoea") else [-2.0, 3.0]
         rec = jobrec.Rec(dim=dim, m=m, bounds=[list(box) for _ in range(dim)], script=script, mode="serial")
+        # objectives of large magnitude: better and worse designs differ only in the 9th..16th significant digit
+        rec.cost_offset = srng.choice([0.0, 0.0, 0.0, 1e9, -1e6]) if alg_name in ("nsga2", "epsmoea") else 0.0
         dynamic_registration(rec)
         if alg_name == "nsga2":
             from artap.algorithm_NSGAII import NSGAII as A
